@@ -228,6 +228,9 @@ type genLimits struct {
 }
 
 func randomSpec(r *rand.Rand, lim genLimits) *treeSpec {
+	if r.Intn(25) == 0 {
+		return wideSpec(r)
+	}
 	// size distribution biased to small trees, with a tail of wide/deep ones
 	var target int
 	switch x := r.Intn(100); {
@@ -337,6 +340,28 @@ func randomSpec(r *rand.Rand, lim genLimits) *treeSpec {
 			}
 			s.Ops[r.Intn(len(s.Ops))].Outcome = out
 		}
+	}
+	t := &treeSpec{Root: root}
+	renumber(t)
+	return t
+}
+
+// wideSpec: one pooled stage that plans more pooled stages than a pool's task queue holds (beyond the design's
+// fan-out of 6): Submit has to block on a busy pool instead of losing tasks.
+func wideSpec(r *rand.Rand) *treeSpec {
+	root := &stageSpec{Async: r.Intn(4) != 0, PlanKind: "empty-root", Ops: []opSpec{{Outcome: oOK, Parent: -1}}}
+	n := 10 + r.Intn(14)
+	for i := 0; i < n; i++ {
+		out := oOK
+		switch r.Intn(12) {
+		case 0:
+			out = oErr
+		case 1:
+			out = oPanicStr
+		case 2:
+			out = oNFIgnored
+		}
+		root.Children = append(root.Children, simpleStage(true, out))
 	}
 	t := &treeSpec{Root: root}
 	renumber(t)
